@@ -246,6 +246,48 @@ func runE3(p *an.Prog, r *an.Result) {
 				r.Bad(name, "the cause kept is not the error the message shows", st.Pos(), "the message is built from one error and Cause() returns another: after an unlocated inner error has been looked through, Cause() must be the underlying error, not the intermediate wrapper")
 			}
 		}
+		if lit, ok := fa.X.(*ssa.Alloc); ok && lit.Referrers() != nil {
+			// a literal: the message field is a formatting of the same error
+			strip := func(v ssa.Value) ssa.Value {
+				for {
+					switch x := v.(type) {
+					case *ssa.MakeInterface:
+						v = x.X
+					case *ssa.ChangeInterface:
+						v = x.X
+					default:
+						return v
+					}
+				}
+			}
+			for _, u := range *lit.Referrers() {
+				fa2, ok := u.(*ssa.FieldAddr)
+				if !ok || fa2 == fa {
+					continue
+				}
+				for _, sv := range an.Stores(fa2) {
+					c := an.CallOf(sv)
+					if c == nil || !strings.HasPrefix(an.CallName(c), "fmt.Sprint") {
+						continue
+					}
+					var shown []ssa.Value
+					if sl, ok := c.Args[len(c.Args)-1].(*ssa.Slice); ok {
+						if al, ok := sl.X.(*ssa.Alloc); ok && al.Referrers() != nil {
+							for _, au := range *al.Referrers() {
+								if ia, ok := au.(*ssa.IndexAddr); ok {
+									shown = append(shown, an.Stores(ia)...)
+								}
+							}
+						}
+					}
+					if len(shown) == 1 && strip(shown[0]) == strip(st.Val) {
+						r.OK(name, "the cause kept is the error the message shows", st.Pos(), "one value feeds both the message and the cause field")
+					} else {
+						r.Bad(name, "the cause kept is not the error the message shows", st.Pos(), "the message is built from one error and Cause() returns another")
+					}
+				}
+			}
+		}
 		// the constructed error is what is returned
 	})
 	if stores == 0 {
@@ -308,7 +350,21 @@ func runE7(p *an.Prog, r *an.Result) {
 			ta = x
 		}
 	})
-	builds := callsNamed(fn, "parser.Errorf")
+	// where a new located error comes into being: a call of the constructor, or a literal of a
+	// module type that implements the located-error interface
+	var builds []ssa.Instruction
+	for _, c := range callsNamed(fn, "parser.Errorf") {
+		builds = append(builds, c)
+	}
+	if ta != nil {
+		if it, ok := ta.AssertedType.Underlying().(*types.Interface); ok {
+			an.EachInstr(fn, func(in ssa.Instruction) {
+				if al, ok := in.(*ssa.Alloc); ok && al.Heap && types.Implements(al.Type(), it) {
+					builds = append(builds, al)
+				}
+			})
+		}
+	}
 	if ta == nil {
 		r.OK(name, "an existing located error is never re-located", an.FuncPos(fn), "WrapError does not look for an existing parser.Error: vacuous")
 		return
@@ -358,114 +414,229 @@ func runE7(p *an.Prog, r *an.Result) {
 // D3
 
 func runD3(p *an.Prog, r *an.Result) {
-	chains := []struct {
-		fn    string
-		calls []string
-	}{
-		{"(*liquid.Template).Render", []string{"render.Render"}},
-		{"(*liquid.Template).FRender", []string{"render.Render"}},
-		{"(*liquid.Template).RenderString", []string{"(*liquid.Template).Render"}},
-		{"(*liquid.Engine).ParseAndRender", []string{"(*liquid.Engine).ParseTemplate", "(*liquid.Template).Render"}},
-		{"(*liquid.Engine).ParseAndFRender", []string{"(*liquid.Engine).ParseTemplate", "(*liquid.Template).FRender"}},
-		{"(*liquid.Engine).ParseAndRenderString", []string{"(*liquid.Engine).ParseAndRender"}},
-		{"(*liquid.Engine).ParseTemplate", []string{"liquid.newTemplate"}},
-		{"(*liquid.Engine).ParseString", []string{"(*liquid.Engine).ParseTemplate"}},
-		{"(*liquid.Engine).ParseTemplateLocation", []string{"liquid.newTemplate"}},
-		{"liquid.newTemplate", []string{"(render.Config).Compile"}},
-		{"cmd/liquid.render", []string{"(*liquid.Engine).ParseTemplate", "(*liquid.Template).Render"}},
+	// the two funnels: everything that parses ends in newTemplate (which compiles), everything
+	// that renders ends in render.Render. A function belongs to a funnel if every return of it
+	// passes through exactly one call of a member (or hands back an earlier step's error, or is an
+	// established failure); membership is computed to a fixpoint, so wrappers of wrappers count.
+	const (
+		capParse  = "parse"
+		capRender = "render"
+	)
+	funnel := map[string]map[*ssa.Function]bool{capParse: {}, capRender: {}}
+	leafParse, leafRender := p.Func("liquid.newTemplate"), p.Func("render.Render")
+	if leafParse == nil || leafRender == nil {
+		r.Bad("-", "common parse/render functions not found", token.NoPos, "liquid.newTemplate or render.Render no longer exists")
+		return
 	}
-	for _, ch := range chains {
-		fn := p.Func(ch.fn)
-		r.Counts["entry points"]++
-		if fn == nil {
-			r.Bad(ch.fn, "not found", token.NoPos, "an entry point the property names no longer exists")
+	funnel[capParse][leafParse], funnel[capRender][leafRender] = true, true
+	var roots []*ssa.Function
+	for _, f := range p.Funcs {
+		if f.Parent() != nil || f.Pkg == nil {
 			continue
 		}
-		name := an.FuncName(fn)
-		var prevErrs []ssa.Value
-		for _, cn := range ch.calls {
-			cs := callsNamed(fn, cn)
-			if len(cs) != 1 {
-				r.Bad(name, "calls "+cn, an.FuncPos(fn), fmt.Sprintf("expected exactly one call of %s, found %d: the entry point does not go through the common path", cn, len(cs)))
-				break
+		if f.Pkg.Pkg.Path() == an.ModPath || an.FuncName(f) == "cmd/liquid.render" {
+			roots = append(roots, f)
+		}
+	}
+	type step struct {
+		call *ssa.Call
+		ok   bool
+		why  string
+	}
+	// through: does every return of fn pass through the one call of a member of set?
+	through := func(fn *ssa.Function, set map[*ssa.Function]bool, prevErrs []ssa.Value) step {
+		var cs []*ssa.Call
+		an.EachInstr(fn, func(in ssa.Instruction) {
+			if c, ok := in.(*ssa.Call); ok {
+				if callee := c.Call.StaticCallee(); callee != nil && set[callee] {
+					cs = append(cs, c)
+				}
 			}
-			c := cs[0]
-			okAll := true
-			an.EachInstr(fn, func(in ssa.Instruction) {
-				ret, ok := in.(*ssa.Return)
-				if !ok {
-					return
-				}
-				if instrDominates(c, ret) {
-					return
-				}
-				// an earlier step failed: the return hands back that step's error
-				res := resultsOf(ret)
-				fromPrev := false
-				for _, rv := range res {
-					for _, pe := range prevErrs {
-						if an.Reaches(rv, an.StepValue, func(v ssa.Value) bool { return v == pe }) {
-							fromPrev = true
-						}
+		})
+		if len(cs) != 1 {
+			return step{nil, false, fmt.Sprintf("expected exactly one call into the common path, found %d", len(cs))}
+		}
+		c := cs[0]
+		okAll := true
+		an.EachInstr(fn, func(in ssa.Instruction) {
+			ret, ok := in.(*ssa.Return)
+			if !ok || instrDominates(c, ret) {
+				return
+			}
+			res := resultsOf(ret)
+			fromPrev := false
+			for _, rv := range res {
+				for _, pe := range prevErrs {
+					if an.Reaches(rv, an.StepValue, func(v ssa.Value) bool { return v == pe }) {
+						fromPrev = true
 					}
 				}
-				if !fromPrev {
-					// any other early exit must be a failure: its error result is established non-nil
-					ei := errResultIndex(fn.Signature)
-					if ei < 0 || !guardedNonNil(ret, res[ei]) {
-						okAll = false
-					}
+			}
+			if !fromPrev {
+				ei := errResultIndex(fn.Signature)
+				if ei < 0 || !guardedNonNil(ret, res[ei]) {
+					okAll = false
 				}
-			})
-			if okAll {
-				r.OK(name, "every return passes through "+cn, c.Pos(), "or hands back the error of an earlier step")
+			}
+		})
+		if !okAll {
+			return step{c, false, "a return bypasses " + an.FuncName(c.Call.StaticCallee())}
+		}
+		return step{c, true, ""}
+	}
+	errOf := func(c *ssa.Call) ssa.Value {
+		if sig := callSig(&c.Call); sig != nil {
+			if ei := errResultIndex(sig); ei >= 0 {
+				return errorValueOf(c, ei)
+			}
+		}
+		return nil
+	}
+	for changed := true; changed; {
+		changed = false
+		for _, f := range roots {
+			// parse first, then render with the parse step's error as an allowed early return
+			var prev []ssa.Value
+			if !funnel[capParse][f] {
+				if st := through(f, funnel[capParse], nil); st.ok {
+					funnel[capParse][f] = true
+					changed = true
+				}
+			}
+			if st := through(f, funnel[capParse], nil); st.ok && st.call != nil {
+				if ev := errOf(st.call); ev != nil {
+					prev = append(prev, ev)
+				}
+			}
+			if !funnel[capRender][f] {
+				if st := through(f, funnel[capRender], prev); st.ok {
+					funnel[capRender][f] = true
+					changed = true
+				}
+			}
+		}
+	}
+	// what each entry point owes, by its signature
+	returnsTemplate := func(f *ssa.Function) bool {
+		res := f.Signature.Results()
+		for i := 0; i < res.Len(); i++ {
+			if strings.HasSuffix(an.TypeName(res.At(i).Type()), "liquid.Template") {
+				return true
+			}
+		}
+		return false
+	}
+	takesBindings := func(f *ssa.Function) bool {
+		for _, par := range f.Params {
+			if isBindingsType(par.Type()) {
+				return true
+			}
+		}
+		return false
+	}
+	takesSource := func(f *ssa.Function) bool {
+		for i, par := range f.Params {
+			if i == 0 && f.Signature.Recv() != nil {
+				continue
+			}
+			switch t := par.Type().Underlying().(type) {
+			case *types.Basic:
+				if t.Kind() == types.String {
+					return true
+				}
+			case *types.Slice:
+				if b, ok := t.Elem().Underlying().(*types.Basic); ok && b.Kind() == types.Byte {
+					return true
+				}
+			}
+		}
+		return false
+	}
+	for _, f := range roots {
+		exported := f.Object() != nil && f.Object().Exported() && f.Signature.Recv() != nil
+		if !exported && an.FuncName(f) != "cmd/liquid.render" {
+			continue
+		}
+		name := an.FuncName(f)
+		needParse := returnsTemplate(f) || (takesBindings(f) && takesSource(f)) || an.FuncName(f) == "cmd/liquid.render"
+		needRender := takesBindings(f) || an.FuncName(f) == "cmd/liquid.render"
+		if !needParse && !needRender {
+			continue
+		}
+		r.Counts["entry points"]++
+		if needParse {
+			if funnel[capParse][f] {
+				r.OK(name, "every return passes through the common parse function", an.FuncPos(f), "directly or through other entry points, down to newTemplate")
 			} else {
-				r.Bad(name, "a return bypasses "+cn, c.Pos(), fmt.Sprintf("%s can return without going through %s: it is not a thin wrapper of the common path, so its result can differ from the other entry points", name, cn))
+				st := through(f, funnel[capParse], nil)
+				r.Bad(name, "a return bypasses the common parse path", an.FuncPos(f), fmt.Sprintf("%s is not a thin wrapper of the common parse path (%s), so its result can differ from the other entry points", name, st.why))
 			}
-			// this step's error value
-			if sig := callSig(&c.Call); sig != nil {
-				if ei := errResultIndex(sig); ei >= 0 {
-					if ev := errorValueOf(c, ei); ev != nil {
-						prevErrs = append(prevErrs, ev)
+		}
+		if needRender {
+			if funnel[capRender][f] {
+				r.OK(name, "every return passes through the common render function", an.FuncPos(f), "directly or through other entry points, down to render.Render; or hands back the error of the parse step")
+			} else {
+				st := through(f, funnel[capRender], nil)
+				r.Bad(name, "a return bypasses the common render path", an.FuncPos(f), fmt.Sprintf("%s is not a thin wrapper of the common render path (%s), so its result can differ from the other entry points", name, st.why))
+			}
+		}
+	}
+	// the parse leaf compiles
+	if st := through(leafParse, map[*ssa.Function]bool{p.Func("(render.Config).Compile"): true}, nil); st.ok {
+		r.OK(an.FuncName(leafParse), "every return passes through (render.Config).Compile", an.FuncPos(leafParse), "")
+	} else {
+		r.Bad(an.FuncName(leafParse), "a return bypasses (render.Config).Compile", an.FuncPos(leafParse), st.why)
+	}
+	// arguments handed to the common path
+	for _, f := range roots {
+		if isMainPkg(f) {
+			continue
+		}
+		name := an.FuncName(f)
+		an.EachInstr(f, func(in ssa.Instruction) {
+			c, ok := in.(*ssa.Call)
+			if !ok {
+				return
+			}
+			callee := c.Call.StaticCallee()
+			if callee == nil || !(funnel[capParse][callee] || funnel[capRender][callee]) {
+				return
+			}
+			if !(f.Object() != nil && f.Object().Exported()) && f != leafParse {
+				return
+			}
+			cn := an.FuncName(callee)
+			for i, a := range c.Call.Args {
+				if isBindingsType(a.Type()) {
+					isParam := false
+					for _, o := range an.Origins(a, an.StepValue) {
+						if _, ok := o.(*ssa.Parameter); ok {
+							isParam = true
+						}
+					}
+					if !isParam {
+						r.Bad(name, fmt.Sprintf("argument %d of %s is not the caller's bindings", i, cn), c.Pos(), "an entry point must hand its bindings on unchanged")
+					}
+				}
+				// scalars (path, starting line) are handed on as given: a parameter is not adjusted on the way
+				if bt, ok := a.Type().Underlying().(*types.Basic); ok && bt.Info()&(types.IsInteger|types.IsString) != 0 {
+					hasParam, adjusted := false, false
+					for _, o := range an.Origins(a, an.StepValue) {
+						switch o.(type) {
+						case *ssa.Parameter:
+							hasParam = true
+						case *ssa.Const:
+							adjusted = true // only counts if mixed with a parameter: a phi of the two
+						case *ssa.BinOp, *ssa.Call:
+							adjusted = true
+						}
+					}
+					if hasParam && adjusted {
+						r.Bad(name, fmt.Sprintf("argument %d of %s is an adjusted parameter", i, cn), c.Pos(), "an entry point hands its path and starting line on as given; clamping or computing them makes this entry point disagree with the others (error line numbers)")
 					}
 				}
 			}
-		}
-		// the bindings handed on are the caller's
-		for _, cn := range ch.calls {
-			for _, c := range callsNamed(fn, cn) {
-				for i, a := range c.Call.Args {
-					if isBindingsType(a.Type()) {
-						isParam := false
-						for _, o := range an.Origins(a, an.StepValue) {
-							if _, ok := o.(*ssa.Parameter); ok {
-								isParam = true
-							}
-						}
-						if !isParam && !isMainPkg(fn) {
-							r.Bad(name, fmt.Sprintf("argument %d of %s is not the caller's bindings", i, cn), c.Pos(), "an entry point must hand its bindings on unchanged")
-						}
-					}
-					// scalars (path, starting line) are handed on as given: a parameter is not adjusted on the way
-					if bt, ok := a.Type().Underlying().(*types.Basic); ok && bt.Info()&(types.IsInteger|types.IsString) != 0 && !isMainPkg(fn) {
-						hasParam, adjusted := false, false
-						for _, o := range an.Origins(a, an.StepValue) {
-							switch o.(type) {
-							case *ssa.Parameter:
-								hasParam = true
-							case *ssa.Const:
-								adjusted = true // only counts if mixed with a parameter: a phi of the two
-							case *ssa.BinOp, *ssa.Call:
-								adjusted = true
-							}
-						}
-						if hasParam && adjusted {
-							r.Bad(name, fmt.Sprintf("argument %d of %s is an adjusted parameter", i, cn), c.Pos(), "an entry point hands its path and starting line on as given; clamping or computing them makes this entry point disagree with the others (error line numbers)")
-						}
-					}
-				}
-			}
-		}
+		})
 	}
 	r.Floor("entry points", 10)
 }
